@@ -13,7 +13,9 @@ EXPLANATION = (
     'multi_get / iter_metadata / get_keyspace_list of a backend; B4 LMDB: every document write is paired with its metadata write in the '
     'same transaction and commit lies on every path from a write to Ok; B5 SQLite execute_many runs all executions inside one transaction '
     'committed before Ok; B7 the keyspace list is read from the persistent registry the writers register keyspaces in (LMDB registry table; '
-    'SQLite: all statements address the one created table). NOT decided: agreement of results with a reference model for arbitrary call sequences; byte fidelity; reopen.')
+    'SQLite: all statements address the one created table); '
+    'B8 no SQL statement compares or orders by the TEXT timestamp column (its text form is not order-preserving) and write statements are '
+    'unconditional. NOT decided: agreement of results with a reference model for arbitrary call sequences; byte fidelity; reopen.')
 ASSUMPTIONS = ['rusqlite / heed / LMDB behave as documented', 'the storage worker thread executes one task at a time']
 
 SQ = 'datacake_sqlite::'
@@ -312,6 +314,34 @@ def check_B7(ctx, facts):
            'SQLite statements address different tables: %s (created: %s)' % ({k: len(v) for k, v in tables_.items()}, create))
 
 
+def check_B8(ctx, facts, rule='C17.B8'):
+    """the timestamp is stored as TEXT in a form that is not order-preserving (seconds are not zero-padded), so SQL must
+    never compare or order by it, and a write statement must be unconditional (storage reports Ok = the row was written)"""
+    n = 0
+    for b in facts.bodies.values():
+        if b.crate != 'datacake_sqlite' or b.d['promoted'] or b.kind != 'static':
+            continue
+        for _b, _j, s in b.assigns():
+            for o in rv_operands(s['rv']):
+                c = op_const(o)
+                if not c or 'str' not in c:
+                    continue
+                txt = ' '.join(c['str'].split())
+                if not re.match(r'(SELECT|INSERT|DELETE|UPDATE)', txt, re.I):
+                    continue
+                n += 1
+                name = last_seg(b.name)
+                cmp_ts = re.search(r'(\b|\.)ts\s*(<=|>=|<|>)|(<=|>=|<|>)\s*([A-Za-z_]+\.)?ts\b|ORDER\s+BY\s+([A-Za-z_]+\.)?ts\b|(MAX|MIN)\s*\(\s*([A-Za-z_]+\.)?ts\s*\)', txt, re.I)
+                cond_write = re.match(r'(INSERT|UPDATE)', txt, re.I) and re.search(r'DO\s+UPDATE\s+SET\b.*\bWHERE\b', txt, re.I)
+                good = not cmp_ts and not cond_write
+                ctx.ob(rule, 'sql|%s' % name, good, site(b),
+                       '%s neither compares / orders the TEXT timestamp column nor makes the write conditional' % name if good else
+                       '%s %s: the text form of a timestamp is not order-preserving (the seconds field is not zero-padded), and a conditional upsert lets '
+                       'storage report Ok without having written the row — an acknowledged write is missing after a restart'
+                       % (name, 'compares / orders by the TEXT column `ts`' if cmp_ts else 'is a conditional write (DO UPDATE ... WHERE)'))
+    ctx.floor(rule, 'SQLite data statements', n, 6)
+
+
 def check(ctx):
     prod = ctx.facts('prod')
     tu = ctx.facts('testutils')
@@ -321,3 +351,4 @@ def check(ctx):
     check_B4(ctx, prod)
     check_B5(ctx, prod)
     check_B7(ctx, prod)
+    check_B8(ctx, prod)
